@@ -232,6 +232,9 @@ func checkC14(p *Program, r *Reporter) {
 	e.classB("E3-B", fns)
 	r.Rule("FIELD-FACT", "status-code pattern fields validated at parse time (cycle >= 1, rsq >= 0, code in 400..599)", 3)
 	buildFieldFacts(p, r, map[string]bool{"app.SegStatusCodes.Cycle": true, "app.SegStatusCodes.Rsq": true, "app.SegStatusCodes.Code": true})
+	if pss := p.lookupFunc(pkgApp, "(*strConvAccErr).ParseSegStatusCodes"); pss != nil {
+		freshPerItemRule(p, r, pss, "app.SegStatusCodes")
+	}
 	if sa := p.mustFunc(r, pkgApp, "LossItvls.StateAt"); sa != nil {
 		wholeSecondRule(p, r, sa)
 		halfOpenRule(p, r, sa)
